@@ -67,5 +67,48 @@ fn main() {
         }
         if got != model { fail(format!("edges of the built graph {got:?} differ from the accepted edges with their latest kinds {model:?} (true = Logic)"), &desc); }
     }
-    println!("OK c16_edges: 4000 call sequences");
+    // growing builders: functions and edges interleaved up to 300 functions; each new function is linked to / from earlier
+    // ones right away, and pairs given before are given again later with either kind (state that is resized or indexed
+    // by the number of functions goes through every size on the way)
+    for round in 0..12 {
+        let total = [70usize, 140, 300][round % 3];
+        let mut b = FnGraphBuilder::new();
+        let mut ids: Vec<FnId> = vec![];
+        let mut model: BTreeMap<(usize, usize), bool> = BTreeMap::new();
+        let mut given: Vec<(usize, usize)> = vec![];
+        let mut succ: Vec<Vec<usize>> = vec![];
+        let desc = format!("growing builder #{round}: functions and edges interleaved up to {total} functions (VERIF_SEED={seed})");
+        let mut call = |b: &mut FnGraphBuilder<Acc>, ids: &Vec<FnId>, model: &mut BTreeMap<(usize, usize), bool>, succ: &mut Vec<Vec<usize>>, x: usize, y: usize, logic: bool| {
+            // reachability over the adjacency lists (the model map is too slow to scan at this size)
+            let cyc = x == y || { let mut seen = vec![false; ids.len()]; let mut st = vec![y]; let mut hit = false; while let Some(v) = st.pop() { if v == x { hit = true; break; } if seen[v] { continue; } seen[v] = true; st.extend(succ[v].iter().copied()); } hit };
+            let got_err = if logic { b.add_logic_edge(ids[x], ids[y]).is_err() } else { b.add_contains_edge(ids[x], ids[y]).is_err() };
+            if got_err != cyc { fail(format!("call ({x} -> {y}, logic={logic}) with {} functions returned {} but the model says {}", ids.len(), if got_err { "WouldCycle" } else { "Ok" }, if cyc { "WouldCycle" } else { "Ok" }), &desc); }
+            if !cyc { if model.insert((x, y), logic).is_none() { succ[x].push(y); } }
+        };
+        while ids.len() < total {
+            let i = ids.len();
+            ids.push(b.add_fn(Acc { id: i, reads: vec![], writes: vec![] }));
+            succ.push(vec![]);
+            if i == 0 { continue; }
+            // link the newest function at once: one or two edges into it, sometimes one out of it
+            for _ in 0..1 + rng.below(2) { let a = rng.below(i as u64) as usize; given.push((a, i)); call(&mut b, &ids, &mut model, &mut succ, a, i, rng.below(2) == 0); }
+            if rng.below(3) == 0 { let a = rng.below(i as u64) as usize; given.push((i, a)); call(&mut b, &ids, &mut model, &mut succ, i, a, rng.below(2) == 0); }
+            // give some earlier pairs again, with a random kind
+            for _ in 0..rng.below(3) { let (x, y) = given[rng.below(given.len() as u64) as usize]; call(&mut b, &ids, &mut model, &mut succ, x, y, rng.below(2) == 0); }
+        }
+        // and every pair once more at full size
+        for k in 0..given.len() { let (x, y) = given[k]; if rng.below(2) == 0 { call(&mut b, &ids, &mut model, &mut succ, x, y, rng.below(2) == 0); } }
+        let g = match std::panic::catch_unwind(std::panic::AssertUnwindSafe(|| b.build())) { Ok(g) => g, Err(_) => fail("build panicked".into(), &desc) };
+        let mut got: BTreeMap<(usize, usize), bool> = BTreeMap::new();
+        for e in g.graph.raw_edges() {
+            let k = (e.source().index(), e.target().index());
+            let logic = match e.weight { Edge::Logic => true, Edge::Contains => false, Edge::Data => fail(format!("unexpected Data edge {k:?}"), &desc) };
+            if got.insert(k, logic).is_some() { fail(format!("two edges for the ordered pair {k:?}"), &desc); }
+        }
+        if got != model {
+            let diff: Vec<_> = model.iter().filter(|(k, v)| got.get(*k) != Some(*v)).take(3).collect();
+            fail(format!("edges of the built graph differ from the accepted edges with their latest kinds, e.g. {diff:?} (true = Logic)"), &desc);
+        }
+    }
+    println!("OK c16_edges: 4000 call sequences on up to 6 functions, 12 growing builders of 70 / 140 / 300 functions");
 }
